@@ -11,6 +11,7 @@ import (
 	"go/token"
 	"os"
 	"strconv"
+	"strings"
 	"unicode"
 	"unicode/utf8"
 
@@ -155,17 +156,23 @@ func (c *config) rewrite(node ast.Node) (ast.Node, error) {
 			}
 
 			// No plenc tag. Either we explicitly exclude it `plenc:"-"`, or we give it a number `plenc:"12"`
-			tag := structtag.Tag{Key: "plenc"}
-			if c.isExcluded(tags) {
-				tag.Name = "-"
-			} else {
+			name := "-"
+			if !c.isExcluded(tags) {
 				maxPlenc++
-				tag.Name = strconv.Itoa(maxPlenc)
-
+				name = strconv.Itoa(maxPlenc)
 			}
-			tags.Set(&tag)
 
-			f.Tag.Value = quote(tags.String())
+			// The other tags are kept exactly as they are: the plenc tag is
+			// added after them
+			value := ""
+			if f.Tag.Value != "" {
+				// extractTags has already checked this
+				value, _ = strconv.Unquote(f.Tag.Value)
+			}
+			if value = strings.TrimRight(value, " "); value != "" {
+				value += " "
+			}
+			f.Tag.Value = quote(value + `plenc:"` + name + `"`)
 		}
 
 		return true
@@ -239,6 +246,10 @@ func plencValue(tag string) (int, error) {
 }
 
 func quote(tag string) string {
+	if strings.Contains(tag, "`") {
+		// Can't be written as a raw string
+		return strconv.Quote(tag)
+	}
 	return "`" + tag + "`"
 }
 
